@@ -400,6 +400,27 @@ impl Node {
         Ok((out, res.err().map(|e| e.to_string())))
     }
 
+    /// Start the production sync server loop with the "need-step" gate armed:
+    /// handle_need parks at every decision point until `ServeSession::step`.
+    pub async fn serve_start(&self, frames: Vec<SyncRequestV1>) -> R<ServeSession> {
+        klukai_types::verif::gate_arm("need-step");
+        let (tx_need, rx_need) = mpsc::channel::<SyncRequestV1>(frames.len().max(1) + 1);
+        let (tx_msg, rx_msg) = mpsc::channel::<SyncMessage>(100_000);
+        let pool = self.agent.pool().clone();
+        let bookie = self.bookie.clone();
+        let h = tokio::spawn(async move {
+            klukai_agent::api::peer::verif::process_sync(pool, bookie, tx_msg, rx_need).await
+        });
+        for f in frames {
+            tx_need
+                .send(f)
+                .await
+                .map_err(|_| SimError::Harness("sync server gone".into()))?;
+        }
+        drop(tx_need);
+        Ok(ServeSession { h, rx_msg })
+    }
+
     pub fn offer_sender(&self) -> CorroSender<(ChangeV1, ChangeSource)> {
         self.agent.tx_changes().clone()
     }
@@ -422,6 +443,48 @@ impl Node {
         }
         self.agent.subs_manager().drop_handles().await;
         Ok(())
+    }
+}
+
+pub struct ServeSession {
+    h: tokio::task::JoinHandle<eyre::Result<()>>,
+    rx_msg: mpsc::Receiver<SyncMessage>,
+}
+
+impl ServeSession {
+    /// true = the server is parked at a decision point; false = it finished.
+    /// Both conditions are stable, so polling them is exact.
+    pub async fn wait(&mut self) -> R<bool> {
+        let t0 = std::time::Instant::now();
+        loop {
+            if klukai_types::verif::gate_parked("need-step") > 0 {
+                return Ok(true);
+            }
+            if self.h.is_finished() {
+                return Ok(false);
+            }
+            if t0.elapsed() > Duration::from_secs(60) {
+                return Err(SimError::Harness("sync server neither parked nor finished".into()));
+            }
+            tokio::time::sleep(Duration::from_micros(50)).await;
+        }
+    }
+
+    pub fn step(&self) {
+        klukai_types::verif::gate_step("need-step");
+    }
+
+    pub async fn finish(mut self) -> R<(Vec<SyncMessage>, Option<String>)> {
+        klukai_types::verif::gate_release("need-step");
+        let mut out = vec![];
+        while let Some(m) = self.rx_msg.recv().await {
+            out.push(m);
+        }
+        let res = self
+            .h
+            .await
+            .map_err(|e| SimError::Harness(format!("process_sync panicked: {e}")))?;
+        Ok((out, res.err().map(|e| e.to_string())))
     }
 }
 
